@@ -160,6 +160,7 @@ func registryRound(c *vlib.Ctx, id int64, sp registrySpec, nonce string) bool {
 		c.Count("registry_later_calls", 1)
 		firstOf = append(firstOf, later)
 		if len(distinct) > 1 {
+			c.Count("registry_topics_with_several_writers", 1)
 			var ws []string
 			for w, k := range distinct {
 				ws = append(ws, fmt.Sprintf("%s x%d", describeWriter(w), k))
